@@ -89,7 +89,28 @@ ENext == /\ Next
          /\ LET new == CHOOSE x \in DOMAIN ev' : x \notin DOMAIN ev
                 sf == IF ev'[new].sp = None THEN 0 ELSE ev'[ev'[new].sp].fr
             IN el' = Handle(ev', anc', el, new, sf + 1, ev'[new].fr)
-ESpec == EInit /\ [][ENext]_evars
+
+
+\* ---- search target (simulation): the new event is a root of several frames, a decision falls while it is processed as a
+\* root of one of its LOWER frames, and the re-vote of the known roots then decides at least one more frame (a cascade).
+\* If the application seals on that later block, handleElection must stop feeding the event's remaining frames.
+RECURSIVE LowCascadeAt(_, _, _, _, _, _)
+LowCascadeAt(evf, ancf, st, e, f, fr) ==      \* 0 = no; otherwise the frame number of the second block decided by this call
+  IF f > fr THEN 0
+  ELSE LET p == ProcessRoot(evf, ancf, st.es, e, f) IN
+       IF p.res = None THEN LowCascadeAt(evf, ancf, [es |-> p.es, atr |-> st.atr], e, f + 1, fr)
+       ELSE LET b == Bootstrap(evf, ancf, [es |-> EmptyES(st.es.ftd + 1), atr |-> Append(st.atr, p.res)], 20) IN
+            IF f < fr /\ f >= 2 /\ Len(b.atr) >= Len(st.atr) + 2 THEN Len(st.atr) + 2 ELSE 0
+VARIABLE lowc
+ENextS == /\ ENext
+          /\ LET new == CHOOSE x \in DOMAIN ev' : x \notin DOMAIN ev
+                 sf == IF ev'[new].sp = None THEN 0 ELSE ev'[ev'[new].sp].fr
+             IN lowc' = LowCascadeAt(ev', anc', el, new, sf + 1, ev'[new].fr)
+ESpecS == EInit /\ lowc = 0 /\ [][ENextS]_<<evars, lowc>>
+ESpec == EInit /\ lowc = 0 /\ [][ENext /\ lowc' = 0]_<<evars, lowc>>
+SealJson == [w |-> W, seal_frame |-> lowc,
+             events |-> StateJson.events, blocks |-> SubSeq(StateJson.blocks, 1, lowc)]
+NoLowCascade == lowc = 0 \/ (PrintT(<<"EDGE", ToJson(SealJson)>>) /\ FALSE)
 
 \* the incremental election (cached votes, reset and re-vote after each decision) decides what the definition decides
 ElectionMatchesDefinition == el.atr = [i \in 1..Len(blocks) |-> blocks[i].atr]
